@@ -6,6 +6,7 @@ import (
 	"path/filepath"
 	"sort"
 	"strings"
+	"time"
 
 	"github.com/hashicorp/go-slug/sourceaddrs"
 
@@ -502,10 +503,28 @@ func bundleRun(which string, env *fw.Env, w *gen.World, emptyAllowedOK bool) fw.
 	return res
 }
 
+// c14Hang: for C14 a build that never returns is a violation ("always terminates").
+func c14Hang(kind, detail string, idx int) (fw.Verdict, string, string) {
+	if kind == "hang" {
+		tail := detail
+		if len(tail) > 2500 {
+			tail = tail[len(tail)-2500:]
+		}
+		return fw.Violated, "the build made no progress for the watchdog period (an Add call or Close never returned):\n" + tail, "build-does-not-terminate"
+	}
+	return fw.Inconclusive, "", ""
+}
+
 func bundleWorldPhases(which string) []*fw.Phase {
+	var crash func(string, string, int) (fw.Verdict, string, string)
+	var timeout time.Duration
+	if which == "C14" {
+		crash = c14Hang
+		timeout = 30 * time.Second
+	}
 	small := func(shape int) *fw.Phase {
 		return &fw.Phase{
-			Name: fmt.Sprintf("exhaustive-small-worlds-shape%d", shape), Exhaustive: true,
+			Name: fmt.Sprintf("exhaustive-small-worlds-shape%d", shape), Exhaustive: true, CrashVerdict: crash, CaseTimeout: timeout,
 			N: func(tier string) int {
 				if tier == "thorough" {
 					return 19683
@@ -524,8 +543,8 @@ func bundleWorldPhases(which string) []*fw.Phase {
 	}
 	s0, s1 := small(0), small(1)
 	random := &fw.Phase{
-		Name: "random-worlds",
-		N:    fw.Fixed(5000, 30000),
+		Name: "random-worlds", CrashVerdict: crash, CaseTimeout: timeout,
+		N: fw.Fixed(5000, 30000),
 		Run: func(env *fw.Env, idx int) fw.Result {
 			r := env.Rand(idx)
 			w := gen.RandomWorld(r, gen.WorldOpts{MaxPkgs: 8, MaxReg: 3, MaxFinders: 3, MaxAdds: 5, Aliases: true, OddAddrs: r.Chance(1, 2)})
